@@ -191,6 +191,19 @@ class Prop(fw.PropBase):
         c = {'stream': stream, 'files': fdesc, 'eol': '\r\n' if rng.random() < 0.1 else '\n', 'use': strategies,
              'rejects': rng.random() < 0.75, 'sc': rng.random() < 0.25, 'maxp': maxp, 'lib': lib,
              'pe_handle': pe_handle, 'meta': meta}
+        c['log'] = rng.random() < 0.5      # log_handle: the API default is None, demux.py always passes one
+        if rng.random() < 0.3:
+            # other constructions of the loader (DemultiplexingStrategyLoader.__init__ options)
+            opts = {}
+            r = rng.random()
+            if r < 0.6:
+                opts['only_detect_methods'] = sorted(set(strategies + rng.sample(names, rng.randint(0, 2))), key=lambda _: rng.random())
+            if rng.random() < 0.3:
+                opts['index_alias'] = rng.choice([None, 'illumina_merged_iPCR_RP', 'illumina_RP_indices'])
+            if rng.random() < 0.1:
+                opts['no_index_parser'] = True
+            if opts:
+                c['loader_opts'] = opts
         if stream == 'main' and n > 0 and rng.random() < 0.2:
             # run history: an earlier run wrote into the same directory / prefix (re-run of a library)
             c['prior_files'] = self.make_prior(fdesc)
@@ -219,6 +232,8 @@ class Prop(fw.PropBase):
                 lane, chunk = (lane + 1 if pieces else 1), 1
             pieces.append([lane, chunk, x])
         c.pop('prior_files', None)
+        c.pop('log', None)
+        c['loader_opts'] = {'only_detect_methods': list(c['use'])} if rng.random() < 0.4 else None
         c.update({'stream': 'main_script', 'main_script': True, 'lane_sizes': sizes, 'pieces': pieces, 'lib': 'LIBA', 'eol': '\n',
                   'pe_handle': len(c['files']) == 2,
                   'list_seed': rng.randint(0, 10 ** 6) if rng.random() < 0.5 else None,
@@ -338,7 +353,7 @@ class Prop(fw.PropBase):
     @staticmethod
     def model_input(c, r, legacy=0):
         cfg = [[c['maxp']] if c.get('maxp') is not None else [], 1 if c.get('rejects') else 0, 1 if c.get('sc') else 0,
-               2 if c.get('pe_handle') else 1, legacy]
+               2 if c.get('pe_handle') else 1, legacy, 1 if c.get('log', True) else 0]
         files = [f['lines'] for f in c['files']]
         strategies, rejhdr = [], []
         if not c.get('reader_only'):
@@ -401,9 +416,9 @@ class Prop(fw.PropBase):
             extra = set(r['result']['yields']) - set(r['order'])
             if extra:
                 dif.append('yield counter for unselected strategies %r' % sorted(extra))
-            lg = r['log']
-            if lg['processed'] != r['result']['processed'] or {k: v for k, v in lg['yields'].items() if v} != \
-                    {k: v for k, v in r['result']['yields'].items() if v}:
+            lg = r.get('log')
+            if lg is not None and (lg['processed'] != r['result']['processed'] or {k: v for k, v in lg['yields'].items() if v} !=
+                                   {k: v for k, v in r['result']['yields'].items() if v}):
                 dif.append('log counters %r differ from the returned ones %r' % (lg, r['result']))
         fi, fm = self.impl_files(c, r), self.model_files(mv)
         if fi != fm:
@@ -460,6 +475,8 @@ class Prop(fw.PropBase):
                 bump('kind', m['kind'])
             bump('config', 'mates=%d rejects=%d percell=%d max=%s' % (len(c['files']), c['rejects'], c['sc'],
                                                                      'none' if c['maxp'] is None else 'set'))
+            hist.setdefault('loader', {})
+            bump('loader', 'log=%d options=%s' % (c.get('log', True), ','.join(sorted(k for k, x in (c.get('loader_opts') or {}).items() if x is not None or k == 'index_alias')) or 'default'))
             bump('result', 'crash:' + r['result']['crash'] if 'crash' in r['result'] else 'completed')
             classes = set()
             npairs = len(r['pairs'])
@@ -552,6 +569,11 @@ class Prop(fw.PropBase):
             if sv:
                 raise fw.Broken('correspondence', 'specification violated on the real output files of a %s library (%d pairs, one file per '
                                 'cell, -fh %s): %s' % (cases[i]['stream'], len(res[i]['pairs']), cases[i].get('max_handles'), sv[0][1]))
+        # ---- hypothesis 'every selected strategy once, short names distinct', checked on the real loader constructions
+        for i in lib_idx:
+            sel = self.selection_problem(cases[i], res[i])
+            if sel:
+                raise fw.Broken('correspondence', 'strategy registration / selection (loader options %r): %s' % (cases[i].get('loader_opts'), sel))
         # ---- hypothesis step_ok of the theorems, checked on the real code: FastqHandle.write never writes part of a pair
         if partial:
             raise fw.Broken('correspondence', 'hypothesis step_ok (no partial write) fails on the real code: %d (pair, strategy) steps wrote '
@@ -599,6 +621,22 @@ class Prop(fw.PropBase):
             return None
         return recs
 
+    def selection_problem(self, c, r):
+        """the loader must register every strategy once (short names unique; with only_detect_methods exactly the named ones)
+        and selecting by short name must give each requested strategy once - the hypothesis 'distinct short names'"""
+        reg = r.get('registered')
+        if reg is not None:
+            if len(set(reg)) != len(reg):
+                return 'the loader registered strategies twice: %r' % sorted(n for n in set(reg) if reg.count(n) > 1)
+            odm = (c.get('loader_opts') or {}).get('only_detect_methods')
+            allnames = [s['name'] for s in self.describe()['strategies']]
+            want = [n for n in allnames if odm is None or n in odm]
+            if reg != want:
+                return 'registered strategies %r, expected %r (only_detect_methods=%r)' % (reg, want, odm)
+        if 'order' in r and sorted(r['order']) != sorted(set(c['use'])):
+            return 'selecting %r by short name gave the strategies %r' % (c['use'], r['order'])
+        return None
+
     def spec_violations(self, c, r):
         """Python transcription of C01_partition / C01_mate_sync / C01_counters / C01_stop_rule evaluated on what the
         implementation wrote and returned.  -> list of (key, text)"""
@@ -614,6 +652,9 @@ class Prop(fw.PropBase):
                     v.append(('reader_record', 'record %d read as %r, the files hold %r' % (k, r['pairs'][k], exp)))
                     break
             return v
+        sel = self.selection_problem(c, r)
+        if sel:
+            v.append(('selection', sel))
         if 'crash' in r['result']:
             if all(h[0] != 2 for _a, _b, h in r.get('rejhdr', [])):
                 v.append(('crash', 'the loader raised %s and left the library unfinished although every reject record can be formatted'
@@ -716,8 +757,9 @@ class Prop(fw.PropBase):
             for name, cnt in bymx.items():
                 if name in c['use'] and ys.get(name, 0) != cnt:
                     v.append(('yields', 'strategyYields[%s] = %d, %d records with MX:%s were written' % (name, ys.get(name, 0), cnt, name)))
-        lg = r['log']
-        if lg['processed'] != r['result']['processed'] or {k: x for k, x in lg['yields'].items() if x} != {k: x for k, x in ys.items() if x}:
+        lg = r.get('log')
+        if lg is not None and (lg['processed'] != r['result']['processed'] or
+                               {k: x for k, x in lg['yields'].items() if x} != {k: x for k, x in ys.items() if x}):
             v.append(('log', 'demultiplexing.log reports %r, returned %r' % (lg, r['result'])))
         return v
 
